@@ -178,6 +178,23 @@ def _chunked_ops_stream(N, big):
                             yield _case(keys, "int" if j % 2 else "float", keyrep, vkind, pat, "c" + fam if fam in ("red", "tr") else fam, masks, sort=(j % 3 != 0), blocks=blocks, params=_params(fam, j), g=g)
 
 
+def _chunked_values_stream(N):
+    """VALUES arriving in several chunks (pyarrow ChunkedArray; an Arrow-backed Series when the mask is a Series) on contiguous keys: the row-aligned kernels walk the chunks
+    with one global row counter that also indexes the keys and the mask"""
+    j = 0
+    for n in range(2, N + 2):
+        for keys in itertools.product([None, 0, 1], repeat=n):
+            if not _is_canon(keys): continue
+            for vblocks in C.compositions(n, 3):
+                if len(vblocks) < 2: continue
+                j += 1
+                for fam in ("roll", "cum", ("red", "tr", "ema")[j % 3]):
+                    pat = _nullpat("float", n, j)
+                    for sel in _subsets(n):
+                        c = _case(keys, "float", "np", "float", pat, fam, mask_spellings(n, sel, ("bool", "series") if fam in ("roll", "cum", "ema") else ALL_KINDS), sort=(j % 5 != 0), params=_params(fam, j))
+                        c["vblocks"] = list(vblocks); yield c
+
+
 def _chunked_desc_stream():
     """designed: chunked keys that START with a descent and have >= 4 rows - the only way to get NO sorted-prefix piece (cutoff <= n/4), i.e. group-key chunks and pointers that are exactly the caller's chunks"""
     j = 0
@@ -227,8 +244,8 @@ def cases(tier, seed):
                _ops_stream(N, [None, 0, 1], "str", "np", ("red", "tr", "cum", "grp"), sym=sym),
                _ops_stream(N, [None, 0, 1, 2], "two", "np", ("red", "tr", "roll", "misc"), sym=sym),
                _ops_stream(N, [None, 0, 1], "float", "series", ("red", "tr", "cum", "roll", "ema", "grp"), sym=sym),
-               _open_stream(), _chunked_desc_stream()]
-    return C.roundrobin(*streams, weights=(2, 3, 3, 2, 1, 1, 1, 1, 1))
+               _open_stream(), _chunked_desc_stream(), _chunked_values_stream(N)]
+    return C.roundrobin(*streams, weights=(2, 3, 3, 2, 1, 1, 1, 1, 1, 2))
 
 
 def extra_cases(tier, seed):
@@ -449,6 +466,14 @@ def _rep(a, idx):
     return pd.Series(a, index=idx)
 
 
+def _vrep(v, idx, vblocks):
+    """the values in the representation of the run: chunked (pyarrow ChunkedArray, or a Series backed by one when the run uses an index) when the case says so"""
+    if vblocks is None or v is None or isinstance(v, list): return _rep(v, idx)
+    import pyarrow as pa
+    b = np.cumsum([0] + list(vblocks)); ch = pa.chunked_array([pa.array(v[b[i]:b[i + 1]], from_pandas=False) for i in range(len(b) - 1)])
+    return ch if idx is None else pd.Series(pd.arrays.ArrowExtensionArray(ch), index=idx)
+
+
 def _build_gb(k, keyrep, blocks, sort, n, idx):
     """a GroupBy in the requested key representation"""
     from groupby_lib.groupby import GroupBy, core as gc
@@ -536,14 +561,14 @@ def check_case(sess, case):
                     else:
                         if gb is None: gb = _build_gb(k, case["keyrep"], case.get("blocks"), case["sort"], n, idx)
                         g_, kk = gb
-                    x = _X(kk, _rep(v, idx), m, times, _rep(col, idx) if idx is not None else col, sub, idx)
+                    x = _X(kk, _vrep(v, idx, case.get("vblocks")), m, times, _rep(col, idx) if idx is not None else col, sub, idx)
                     got = fn(g_, x)
             except Exception as ex:
                 if not accepted: sess.evals["c05.kind_rejected"] += 1; continue      # the operation does not accept this mask kind and says so
                 if isinstance(ref[op], _Raised): continue                              # the operation is not defined on the filtered data either
                 try:                                                                   # does the operation work on this key representation WITHOUT a mask? if not, the failure is not about masks
                     with contextlib.redirect_stdout(io.StringIO()):
-                        gb2, kk2 = _build_gb(k, case["keyrep"], case.get("blocks"), case["sort"], n, idx); fn(gb2, _X(kk2, _rep(v, idx), None, times, _rep(col, idx) if idx is not None else col, sub, idx))
+                        gb2, kk2 = _build_gb(k, case["keyrep"], case.get("blocks"), case["sort"], n, idx); fn(gb2, _X(kk2, _vrep(v, idx, case.get("vblocks")), None, times, _rep(col, idx) if idx is not None else col, sub, idx))
                 except Exception:
                     sess.evals["c05.fails_without_mask_too"] += 1; continue
                 sess.record("raises", fname, f"a mask of an accepted kind must not make the operation fail where the filtered data is fine: {type(ex).__name__}", str(ex)[:200]); continue
